@@ -491,6 +491,7 @@ type FuncSpec struct {
 	Loops     map[int]*LoopSpec
 	Callees   []*CalleeSpec
 	Asserts   map[string][]*Clause // at "<text>"
+	SetAts    map[string][]*SetClause // ghost assignment anchored before a statement
 	Options   map[string]string    // mode, allow-exit, check ...
 	Pure      bool
 	Trusted   bool // lib contract (never verified against a body)
@@ -843,6 +844,26 @@ func parseSpecLines(lines []specLine, pkg string, file string, trusted bool) (*S
 		case "option":
 			k, v := splitWord(rest)
 			cur.Options[k] = v
+		case "setat":
+			// setat "<anchor text>" ghost := expr     (executed just before the anchored statement)
+			r := strings.TrimSpace(rest)
+			if !strings.HasPrefix(r, "\"") {
+				return nil, fmt.Errorf("%s: setat \"text\" name := expr", ln.pos)
+			}
+			j := strings.Index(r[1:], "\"")
+			anchor := r[1 : 1+j]
+			parts := strings.SplitN(strings.TrimSpace(r[j+2:]), ":=", 2)
+			if len(parts) != 2 {
+				return nil, fmt.Errorf("%s: setat \"text\" name := expr", ln.pos)
+			}
+			e, err := ParseExpr(strings.TrimSpace(parts[1]))
+			if err != nil {
+				return nil, fmt.Errorf("%s: %v", ln.pos, err)
+			}
+			if cur.SetAts == nil {
+				cur.SetAts = map[string][]*SetClause{}
+			}
+			cur.SetAts[anchor] = append(cur.SetAts[anchor], &SetClause{Name: strings.TrimSpace(parts[0]), E: e, Src: rest})
 		case "assert":
 			// assert at|after "<anchor text>" E   -- anchored on source text of a statement
 			when := "at"
